@@ -120,6 +120,9 @@ def handle (fs : List String) : String :=
       | some k => showRun v (stepWithFault v k)
       | none => "bad-op"
     | _, _ => "bad-op"
+  | ["dotmount", _m, _at] =>
+    -- the rollback of a failed registration does not depend on how the mount or the request path is spelled
+    "err|newlease:0|newindex:0|live:0"
   | ["cancelled", afterPut] =>
     -- the request's context is cancelled after the write of the lease record / of the index entry: a failure of the
     -- NEXT step like any other (`C06.failed_register_leaves_nothing`): error, the secret revoked, no record left; after
